@@ -1,4 +1,4 @@
-CONSTANTS TreeKind = "dot"  NP = 2  MaxPer = 3  MaxTotal = 6  Mix = "any"  MinDepth = 1
+CONSTANTS TreeKind = "dot"  NP = 2  MaxPer = 3  MaxTotal = 6  Mix = "any"  MinDepth = 1  MaxDepth = 3
   Tree <- MCTree
   StreamSet <- MCStreams
   Record = FALSE
